@@ -657,14 +657,13 @@ def run(prog, tier, res):
             res.violate(R10, MCI, "unsorted:%s" % nm_, "the hits of %s are matched without the amplitude sort" % nm_, bm.where())
     # ------------------------------------------------------------------ R11: the three-row window of pad_hits_at_t
     R11 = res.rule("C13.R11", "pad_hits_at_t: a three-row window slides by exactly one row per iteration over all rows (first := middle, middle := this row's "
-                   "sample or 0.0, on every iteration path; seeded with rows 0 and 1), one hit per local maximum, hit built from the window", 4)
+                   "sample or 0.0, on every iteration path; seeded with rows 0 and 1), one hit per local maximum, hit built from the window", 3)
     res.functions.add(PADHITS)
     pw = pad_window(prog)
     wsp = accept.load_spec("c13.json")["pad_window"]
-    for key_, what in (("init", "the window is seeded with rows 0 and 1 (`get(t).copied().unwrap_or(0.0)`) and the loop visits rows 2.. in order"),
-                       ("updates", "on every iteration path first := middle and then middle := the row's sample (or 0.0)"),
-                       ("pushes", "exactly one iteration path pushes a hit"),
-                       ("value", "the hit is built from the window (row - 1, first, middle, last)")):
+    for key_, what in (("window", "the hit candidates are the triples of adjacent rows (c-1, c, c+1) for every centre row c in order: a carried window seeded with rows 0 and 1 that slides by one row on every iteration, or windows(3)"),
+                       ("pushes", "exactly one push of a hit in the row loop"),
+                       ("value", "the hit is built from the triple (centre row, first, middle, last) by the centroid formula")):
         if pw.get(key_) == wsp[key_]:
             res.hit(R11)
         else:
@@ -679,18 +678,22 @@ PADHITS = M + "pad_hits_at_t"
 
 
 def pad_window(prog):
-    """the row loop of pad_hits_at_t as data, in role vocabulary (W0 = first, W1 = middle, CUR = this row's sample, ROW = the
-    loop's row index, SAMPLE(r) = `rows[r].get(t)` or 0.0): seeds of the carried window cells and the rows visited, the
-    update of each cell per iteration, the guards that dominate the push of a hit inside the loop, and the pushed value.
-    Extracted by dominance and reaching definitions (not by path enumeration), so that the way a sample is read (helper,
-    match, unwrap_or) and the way the rows are visited (enumerate().skip(2) or an index range) do not matter."""
+    """the row loop of pad_hits_at_t as data, in role vocabulary: FIRST / MIDDLE / LAST = the samples (`rows[r].get(t)` or
+    0.0) of three ADJACENT rows c-1, c, c+1 and C = the centre row c, for every c in 1..=N-2 in order; the guards that
+    dominate the push of a hit inside the loop; the pushed value.  Two ways of producing the triples are recognised:
+      * a carried window: two cells seeded with rows 0 and 1, the loop visits rows 2.. (enumerate().skip(2) or an index
+        range up to the array length), and on EVERY iteration first := old middle, middle := this row's sample;
+      * `rows.windows(3).enumerate()` read directly.
+    Anything else (a cell not updated on some iteration, other seeds, other rows) is reported as the `window` entry.
+    Extraction is by dominance and reaching definitions, so the way a sample is read (helper, closure, match, unwrap_or)
+    does not matter."""
     from ..sym import atom_str
     b = prog.body(PADHITS)
     an = analysis(prog, b, positions=True)
     sy = Sym(prog, an, slice_param=99)
     tm = an.terms
     heads = sorted(set(h for _, h in b.back_edges()))
-    out = {"init": None, "updates": None, "pushes": None, "guards": None, "value": None}
+    out = {"window": "no single row loop", "pushes": None, "guards": None, "value": None}
     if len(heads) != 1:
         return out
     hd = heads[0]
@@ -714,41 +717,72 @@ def pad_window(prog):
         ty1 = ty1["t"]
     if ty1.get("k") == "array":
         nrows = ty1.get("n")
-    # the rows visited and the names of (row index, row vector) in the two iteration forms
-    if itn == "mut(Iterator::skip(Iterator::enumerate(<impl [T]>::iter((arg1 as &[std::vec::Vec<f64>]))),2))":
-        rows = "2.."
-        alias = [(elem + ".1", "ROWVEC"), (elem + ".0", "ROW")]
-    else:
-        m = re.match(r"^mut\(Range\{(\d+),(\d+)\}\)$", itn)
-        if not (m and nrows is not None and int(m.group(2)) == nrows):
-            return out
-        rows = "%s.." % m.group(1)
-        alias = [("arg1[%s]" % elem, "ROWVEC"), ("Index::index(arg1,%s)" % elem, "ROWVEC"), (elem, "ROW")]
 
     def sample(x):
-        return re.sub(r"Option::<T>::unwrap_or\(Option::<&T>::copied\(<impl \[T\]>::get\(([^()]*(?:\[[^\]]*\])?),arg2\)\),0\.0\)", r"SAMPLE(\1)", x)
+        return re.sub(r"Option::<T>::unwrap_or\(Option::<&T>::copied\(<impl \[T\]>::get\(([^()]*(?:\[[^\]]*\])*),arg2\)\),0(?:\.0)?\)", r"SAMPLE(\1)", x)
     roles = {}
-    inits = {}
-    for l in carried:
-        outs = [d for d in tm.defs.whole[l] if d[0] not in lp]
-        if len(outs) != 1:
-            return out
-        nm = sample(sy.name(sy._def_term(outs[0])))
-        m = re.match(r"^SAMPLE\(arg1\[(\d+)\]\)$", nm)
-        if not m:
-            return out
-        roles[l] = "W%s" % m.group(1)
-        inits[roles[l]] = nm
+    final = []          # (string, role) replacements applied last
+    window = None
+    if itn == "mut(Iterator::enumerate(<impl [T]>::windows((arg1 as &[std::vec::Vec<f64>]),3)))":
+        if carried:
+            window = "windows(3) with additional carried cells"
+        alias = []
+        final = [("SAMPLE(ELEM.1[0])", "FIRST"), ("SAMPLE(ELEM.1[1])", "MIDDLE"), ("SAMPLE(ELEM.1[2])", "LAST"), ("ELEM.0 + 1", "C")]
+        window = window or "adjacent triples (c-1, c, c+1), every centre row in order"
+    elif sample(itn) == "mut(Iterator::enumerate(<impl [T]>::windows(Iterator::collect(Iterator::map(<impl [T]>::iter((arg1 as &[std::vec::Vec<f64>])),|x| SAMPLE(x))),3)))":
+        # the samples of all rows collected first (`rows.iter().map(sample).collect()`), then windows(3) over them
+        alias = []
+        final = [("ELEM.1[0]", "FIRST"), ("ELEM.1[1]", "MIDDLE"), ("ELEM.1[2]", "LAST"), ("ELEM.0 + 1", "C")]
+        window = "windows(3) with additional carried cells" if carried else "adjacent triples (c-1, c, c+1), every centre row in order"
+    else:
+        if itn == "mut(Iterator::skip(Iterator::enumerate(<impl [T]>::iter((arg1 as &[std::vec::Vec<f64>]))),2))":
+            rows = "2.."
+            alias = [("ELEM.1", "ROWVEC"), ("ELEM.0", "ROW")]
+        else:
+            m = re.match(r"^mut\(Range\{(\d+),(\d+)\}\)$", itn)
+            if not (m and nrows is not None and int(m.group(2)) == nrows):
+                out["window"] = "rows visited by %s" % itn[:120]
+                return out
+            rows = "%s.." % m.group(1)
+            alias = [("arg1[ELEM]", "ROWVEC"), ("Index::index(arg1,ELEM)", "ROWVEC"), ("ELEM", "ROW")]
+        inits = {}
+        for l in carried:
+            outs = [d for d in tm.defs.whole[l] if d[0] not in lp]
+            if len(outs) != 1:
+                out["window"] = "a window cell with %d initial values" % len(outs)
+                return out
+            nm = sample(sy.name(sy._def_term(outs[0])))
+            m = re.match(r"^SAMPLE\(arg1\[(\d+)\]\)$", nm)
+            if not m:
+                out["window"] = "a window cell seeded with %s" % nm[:120]
+                return out
+            roles[l] = "W%s" % m.group(1)
+            inits[roles[l]] = nm
+        ups = []
+        for l in carried:
+            ins = [d for d in tm.defs.whole[l] if d[0] in lp]
+            if len(ins) != 1 or not all(b.dominates(ins[0][0], tl) for tl in tails):
+                ups.append([roles[l], "not updated exactly once on every iteration (%d definition(s))" % len(ins)])
+                continue
+            d = ins[0]
+            tm._pos = (d[0], d[1])
+            dt = strip(sy._def_term(d))
+            if dt[0] == "var" and dt[1] in roles:
+                rd = sy.reaching(dt[1], dt[2] if len(dt) > 2 else (d[0], d[1]))
+                val = ("old " if rd == {"HEADER"} else "new ") + roles[dt[1]]
+            else:
+                val = sample(sy.name(dt).replace(elem, "ELEM"))
+                for a_, b_ in alias:
+                    val = val.replace(a_, b_)
+                val = sample(val).replace("SAMPLE(ROWVEC)", "CUR")
+            ups.append([roles[l], val])
+        detail = {"cells": dict(sorted(inits.items())), "rows": rows, "updates": sorted(ups)}
+        if detail == {"cells": {"W0": "SAMPLE(arg1[0])", "W1": "SAMPLE(arg1[1])"}, "rows": "2..", "updates": [["W0", "old W1"], ["W1", "CUR"]]}:
+            window = "adjacent triples (c-1, c, c+1), every centre row in order"
+        else:
+            window = detail
+        final = [("W0", "FIRST"), ("W1", "MIDDLE"), ("CUR", "LAST"), ("ROW - 1", "C")]
 
-    def al(x):
-        for a_, b_ in alias:
-            x = x.replace(a_, b_)
-        x = sample(x).replace("SAMPLE(ROWVEC)", "CUR")
-        for init_, ls in getattr(sy, "_loop_syms", {}).items():
-            for k, l in reversed(list(enumerate(ls))):
-                if l in roles:
-                    x = x.replace("loop(%s)" % init_ if k == 0 else "loop#%d(%s)" % (k + 1, init_), roles[l])
-        return x
     def sub_roles(x):
         """reads of the window cells by role: the value at the loop header (`Wk`) or the one assigned in this iteration"""
         if not isinstance(x, tuple) or not x or not isinstance(x[0], str):
@@ -765,29 +799,22 @@ def pad_window(prog):
             else:
                 o_.append(y)
         return tuple(o_)
-    out["init"] = {"cells": dict(sorted(inits.items())), "rows": rows}
-    # updates: one definition per cell inside the loop, executed on every iteration
-    ups = []
-    for l in carried:
-        ins = [d for d in tm.defs.whole[l] if d[0] in lp]
-        if len(ins) != 1 or not all(b.dominates(ins[0][0], tl) for tl in tails):
-            ups.append([roles[l], "not updated exactly once on every iteration (%d definition(s))" % len(ins)])
-            continue
-        d = ins[0]
-        tm._pos = (d[0], d[1])
-        dt = strip(sy._def_term(d))
-        if dt[0] == "var" and dt[1] in roles:
-            rd = sy.reaching(dt[1], dt[2] if len(dt) > 2 else (d[0], d[1]))
-            val = ("old " if rd == {"HEADER"} else "new ") + roles[dt[1]]
-        else:
-            val = al(sy.name(dt))
-        ups.append([roles[l], val])
-    out["updates"] = sorted(ups)
+
+    def al(x):
+        x = sample(x.replace(elem, "ELEM"))
+        for a_, b_ in alias:
+            x = x.replace(a_, b_)
+        x = sample(x).replace("SAMPLE(ROWVEC)", "CUR")
+        for a_, b_ in final:
+            x = x.replace(a_, b_)
+        # IEEE multiplication / addition of two samples is commutative: one operand order
+        x = re.sub(r"\b(Mul|Add)\((FIRST|MIDDLE|LAST),(FIRST|MIDDLE|LAST)\)", lambda m_: "%s(%s)" % (m_.group(1), ",".join(sorted([m_.group(2), m_.group(3)]))), x)
+        return x
+    out["window"] = window
     pushes = [(bb, t) for bb, t in b.calls() if bb in lp and short(cname(t)) == "Vec::<T, A>::push"]
     out["pushes"] = len(pushes)
     if len(pushes) == 1:
         pbb, pt = pushes[0]
-        pre = set(str(an.edge_atom(*e)) for e in an.dominating_edges(hd))
         ats = []
         for e in an.dominating_edges(pbb):
             if e[0] not in lp:
